@@ -23,8 +23,9 @@ import (
 )
 
 type H struct {
-	r   *hlib.Run
-	rng *hlib.Rand
+	r            *hlib.Run
+	rng          *hlib.Rand
+	notedResOnly bool
 }
 
 func errWord(err error) string {
@@ -669,6 +670,18 @@ func (h *H) cwRun(loc int, cps uint64, tempKind int, failAt int, nOps int, mode 
 	replay := strings.Join(trace, "\n")
 	d, chunks, bad := sChunks(file)
 	if bad != "" {
+		if len(accepted) == 0 && len(resources) > 0 && loc == 0 && bad == "root-cptrmax" {
+			// Outside C13's statement (rac.Writer never adds a resource without a chunk when
+			// Close returns nil), so counted and noted, not failed: ChunkWriter.Close with
+			// resources but no chunk appends the fixed 32-byte empty RAC file although the
+			// magic and the resources were already written; CPtrMax (32) != CFileSize.
+			r.Count("cw:observation:resources-without-chunks-gives-invalid-file")
+			if !h.notedResOnly {
+				h.notedResOnly = true
+				r.Note("observation (outside the property): ChunkWriter{IndexLocationAtEnd}: AddResource, Close with no AddChunk returns nil but the file is not a valid RAC file (root CPtrMax 32 != CFileSize); input findings/C13/resources-without-chunks.ops")
+			}
+			return
+		}
 		r.Fail("spec-invalid:chunkwriter:"+string(bad), "ChunkWriter.Close returned nil but the file violates the RAC spec: "+string(bad), replay)
 		return
 	}
